@@ -2,19 +2,23 @@ import PsyVerif.Lemmas.DeclsWrite
 /-! C03, routine scope: `gen_decls` on the canonical (re-read) table reproduces the declarations. -/
 namespace Decls
 
-def nv : Sym → Sym := normVis false
+/-- what the text keeps of a symbol: in a module everything, in a routine not the visibility -/
+def nvm (m : Bool) : Sym → Sym := normVis m
 
-theorem nv_cls (s : Sym) : (nv s).cls = s.cls := by simp [nv, normVis]
-theorem nv_name (s : Sym) : (nv s).name = s.name := by simp [nv, normVis]
-theorem nv_ideps (s : Sym) : (nv s).ideps = s.ideps := by simp [nv, normVis]
-theorem nv_idem (s : Sym) : nv (nv s) = nv s := by simp [nv, normVis]
+variable {m : Bool}
+
+theorem nv_cls (s : Sym) : (nvm m s).cls = s.cls := by cases m <;> simp [nvm, normVis]
+theorem nv_name (s : Sym) : (nvm m s).name = s.name := by cases m <;> simp [nvm, normVis]
+theorem nv_ideps (s : Sym) : (nvm m s).ideps = s.ideps := by cases m <;> simp [nvm, normVis]
+theorem nv_idem (s : Sym) : nvm m (nvm m s) = nvm m s := by cases m <;> simp [nvm, normVis]
+theorem nvm_true (s : Sym) : nvm true s = s := by simp [nvm, normVis]
 
 theorem ofCls_append (a b : List Sym) (c : Cls) : ofCls (a ++ b) c = ofCls a c ++ ofCls b c := by
   simp [ofCls, List.filter_append]
 
-theorem ofCls_map_nv (l : List Sym) (c : Cls) : ofCls (l.map nv) c = (ofCls l c).map nv := by
+theorem ofCls_map_nv (l : List Sym) (c : Cls) : ofCls (l.map (nvm m)) c = (ofCls l c).map (nvm m) := by
   simp only [ofCls, List.filter_map]
-  have : ((fun s => s.cls == c) ∘ nv) = (fun s => s.cls == c) := by
+  have : ((fun s => s.cls == c) ∘ (nvm m)) = (fun s => s.cls == c) := by
     funext s; simp [nv_cls]
   rw [this]
 
@@ -31,7 +35,7 @@ theorem ofCls_self_of {l : List Sym} {c : Cls} (h : ∀ s ∈ l, s.cls = c) : of
 theorem cls_of_mem_ofCls {l : List Sym} {c : Cls} {s : Sym} (h : s ∈ ofCls l c) : s.cls = c := by
   simpa using (List.mem_filter.mp h).2
 
-theorem names_map_nv (l : List Sym) : names (l.map nv) = names l := by
+theorem names_map_nv (l : List Sym) : names (l.map (nvm m)) = names l := by
   simp [names, List.map_map, Function.comp_def, nv_name]
 
 theorem filterMap_findSym_self {l : List Sym} (hnd : (names l).Nodup) :
@@ -146,23 +150,23 @@ theorem mem_canonTab {H D : List Sym} {s : Sym} (h : s ∈ canonTab H D) : s ∈
 /-- **write_canonical_id** for the declarations: `gen_decls` on the re-read table of a routine
 reproduces the declarations of the first write, in the same order. -/
 theorem genDecls_canonical {u : Unit} (w : Wf u) {ds : List Sym} (hd : genDecls u = .ok ds)
-    (u' : Unit) (hm' : u'.isModule = false) (H : List Sym)
+    (u' : Unit) (hm' : u'.isModule = true → ofCls u.syms .arg = []) (H : List Sym)
     (hH : ∀ s ∈ H, s.cls.declarable = false ∧ s.cls ≠ .unresolved ∧ s.cls ≠ .routineBad)
-    (hs : u'.syms = canonTab H (ds.map nv)) : genDecls u' = .ok (ds.map nv) := by
+    (hs : u'.syms = canonTab H (ds.map (nvm m))) : genDecls u' = .ok (ds.map (nvm m)) := by
   obtain ⟨order, ho, rfl, _, _, _⟩ := genDecls_ok hd
   obtain ⟨hperm, hPperm, hPnames⟩ := paramSyms_perm w ho
   have hPcls : ∀ s ∈ paramSyms u.syms order, s.cls = .param := fun s hs =>
     cls_of_mem_ofCls (hPperm.subset hs)
   let g : Segs :=
-    { I := (ofCls u.syms .iface).map nv, P := (paramSyms u.syms order).map nv, A := (ofCls u.syms .arg).map nv,
-      T := (ofCls u.syms .dtype).map nv, O := (ofCls u.syms .other).map nv,
+    { I := (ofCls u.syms .iface).map (nvm m), P := (paramSyms u.syms order).map (nvm m), A := (ofCls u.syms .arg).map (nvm m),
+      T := (ofCls u.syms .dtype).map (nvm m), O := (ofCls u.syms .other).map (nvm m),
       hI := by intro s hs; obtain ⟨t, ht, rfl⟩ := List.mem_map.mp hs; rw [nv_cls]; exact cls_of_mem_ofCls ht
       hP := by intro s hs; obtain ⟨t, ht, rfl⟩ := List.mem_map.mp hs; rw [nv_cls]; exact hPcls t ht
       hA := by intro s hs; obtain ⟨t, ht, rfl⟩ := List.mem_map.mp hs; rw [nv_cls]; exact cls_of_mem_ofCls ht
       hT := by intro s hs; obtain ⟨t, ht, rfl⟩ := List.mem_map.mp hs; rw [nv_cls]; exact cls_of_mem_ofCls ht
       hO := by intro s hs; obtain ⟨t, ht, rfl⟩ := List.mem_map.mp hs; rw [nv_cls]; exact cls_of_mem_ofCls ht }
   have hD : (ofCls u.syms .iface ++ paramSyms u.syms order ++ ofCls u.syms .arg ++ ofCls u.syms .dtype
-      ++ ofCls u.syms .other).map nv = g.all := by simp [Segs.all, g]
+      ++ ofCls u.syms .other).map (nvm m) = g.all := by simp [Segs.all, g]
   rw [hD] at hs ⊢
   have hHd : ∀ s ∈ H, s.cls.declarable = false := fun s hs => (hH s hs).1
   have hof : ∀ c, c.declarable = true → ofCls u'.syms c = ofCls g.all c := fun c hc => by
@@ -230,8 +234,18 @@ theorem genDecls_canonical {u : Unit} (w : Wf u) {ds : List Sym} (hd : genDecls 
     apply List.any_eq_false.mpr; intro s hs; simpa using (hcls s hs).1
   have c2 : (u'.syms.any fun s => s.cls == Cls.routineBad) = false := by
     apply List.any_eq_false.mpr; intro s hs; simpa using (hcls s hs).2
-  simp only [c1, c2, Bool.false_and, Bool.false_eq_true, if_false, hord, hm']
+  have c3 : (u'.isModule && !(ofCls u'.syms .arg).isEmpty) = false := by
+    cases hmod : u'.isModule with
+    | false => rfl
+    | true =>
+      have : ofCls u'.syms .arg = [] := by
+        rw [hof _ rfl, g.ofCls_arg]; simp only [g]; rw [hm' hmod]; rfl
+      simp [this]
+  simp only [c1, c2, c3, Bool.false_and, Bool.false_eq_true, if_false, hord]
   rw [hof _ rfl, hof _ rfl, hof _ rfl, hof _ rfl, hpsyms, g.ofCls_iface, g.ofCls_arg, g.ofCls_dtype, g.ofCls_other]
   rfl
+
+/-- routine scope -/
+abbrev nv : Sym → Sym := nvm false
 
 end Decls
